@@ -50,11 +50,17 @@ def prove_targets(db, targets, lemmas=(), timeout_ms=20000, verbose=False):
                 rec = fi.record()
                 rec["contract"] = c2.target
                 rec["obligations"] = len(o)
-                if c2.options.get("glue"):
+                if c2.options.get("glue") or c2.options.get("frame_only"):
                     rec["no_fuzz"] = True  # trace contracts of orchestration code have no concrete evaluator
                 funcs.append(rec)
             except Unsupported as e:
                 undecided.append({"function": tgt, "contract": c2.target, "reason": "Unsupported: %s" % e})
+                if getattr(e, "partial", None):
+                    ex, o, fi = e.partial
+                    heaps[id(ex.inputs)] = ex.old_state.heap if ex.old_state is not None else {}
+                    for ob in o:
+                        ob.partial = True
+                    obs += o
             except Exception as e:
                 undecided.append({"function": tgt, "contract": c2.target, "reason": "engine error: %r" % e,
                                   "trace": traceback.format_exc()[-1500:]})
@@ -70,6 +76,8 @@ def prove_targets(db, targets, lemmas=(), timeout_ms=20000, verbose=False):
                               "trace": traceback.format_exc()[-1500:]})
     t_gen = time.time() - t0
     res = solve.solve_all(obs, heaps, timeout_ms=timeout_ms)
+    # partial obligations (function undecided as a whole): keep only the ones that did NOT discharge
+    res = [x for x, ob in zip(res, obs) if not (getattr(ob, "partial", False) and x["result"] == "unsat")]
     return {"functions": funcs, "results": res, "undecided_functions": undecided, "gen_s": round(t_gen, 2),
             "solve_s": round(time.time() - t0 - t_gen, 2)}
 
